@@ -54,6 +54,7 @@ def unary_task(payload, at_hook, post=None, want=('report',), timeout=300.0):
     if out['status'] != 'accepted':
         res['not_accepted'] = 1
         check.bump(res, 'rejected:' + str(out.get('exc_class')))
+        check.note(res, 'rejected_inputs', f"{out.get('exc_class')}: {payload.get('changes', payload.get('tag', ''))} :: {str(out.get('exc'))[:160]}")
         if payload.get('base'):
             res['infra'].append(f'family base not accepted: {out["exc"]} payload={payload}')
         return res
